@@ -43,7 +43,8 @@ LIBVER = (1, 2, 1)
 
 PVALS = {"int": [3, -4, 5], "float": [1.5, -0.25, 8.0], "text": ["a", "ü", "long text"], "bool": [True, False, True]}
 FORESTS = [[("s", [])], [("s", [("s", [])])], [("s", []), ("Z", [])], [("s", [("a", []), ("s", [])])]]
-EXTRAS = ["none", "uncertainty-uniform", "uncertainty-per-value", "reference", "file-encoder-checksum", "mixed"]
+EXTRAS = ["none", "uncertainty-uniform", "uncertainty-per-value", "uncertainty-tiny", "reference", "file-encoder-checksum", "mixed"]
+TINY = [2e-11, 5e-11, 1e-11, 3e-11]
 MIXED = ["reference", "none", "file-encoder-checksum", "uncertainty-per-value", "none"]
 
 
@@ -175,6 +176,8 @@ def extras_for(extra, n, i):
         unc = 0.5
     elif extra == "uncertainty-per-value":
         unc = 0.1 * (i + 1)
+    elif extra == "uncertainty-tiny":
+        unc = TINY[i % len(TINY)]          # different for every value, all far below 1e-8
     elif extra == "reference":
         ref = "ref%d" % i
     elif extra == "file-encoder-checksum":
@@ -287,7 +290,8 @@ def check_content(r, path, cfg, snap, stage):
             if tuple(cfg["ver"]) < (1, 1, 1):
                 ex = extra_of(cfg, pname)
                 # exactly the expected derived properties, no others
-                suffixes = {"uncertainty-per-value": [".uncertainty"] if n > 1 else [], "reference": [".reference"],
+                suffixes = {"uncertainty-per-value": [".uncertainty"] if n > 1 else [], "uncertainty-tiny": [".uncertainty"] if n > 1 else [],
+                            "reference": [".reference"],
                             "file-encoder-checksum": [".filename", ".encoder", ".checksum"]}.get(ex, [])
                 present = [q.name[len(pname):] for q in sec.props if q.name.startswith(pname + ".")]
                 if sorted(present) != sorted(suffixes):
@@ -295,14 +299,14 @@ def check_content(r, path, cfg, snap, stage):
                 if ex == "uncertainty-uniform":
                     if p.uncertainty != 0.5:
                         return bad("extra-uncertainty-lost", "%s uncertainty %r, before 0.5 for every value" % (key, p.uncertainty))
-                elif ex == "uncertainty-per-value":
-                    want = [0.1 * (i + 1) for i in range(n)]
+                elif ex in ("uncertainty-per-value", "uncertainty-tiny"):
+                    want = [0.1 * (i + 1) for i in range(n)] if ex == "uncertainty-per-value" else [TINY[i % len(TINY)] for i in range(n)]
                     if n == 1:
                         got = [p.uncertainty]
                     else:
                         q = sec.props[pname + ".uncertainty"] if (pname + ".uncertainty") in sec.props else None
                         got = None if q is None else [float(x) for x in q.values]
-                    if got is None or len(got) != n or not np.allclose(got, want):
+                    if got is None or len(got) != n or not np.allclose(got, want, rtol=1e-12, atol=0.0):
                         return bad("extra-uncertainty-lost", "%s per-value uncertainties %r, before %r" % (key, got, want))
                 elif ex == "reference":
                     q = sec.props[pname + ".reference"] if (pname + ".reference") in sec.props else None
